@@ -714,7 +714,7 @@ def r10_option_closure(lines, origin, repo, relfile):
     RECV.map(|p| BODY)          ->  match (RECV) { Some(p) => Some(BODY), None => None }
     (the definitions of Option::and_then / Option::map, beta-reduced: Verus knows nothing about the result of a
     closure that carries no spec, and a code line cannot carry one).  Fires only where the call is the tail of a
-    scrutinee (`let PAT = RECV.f(|p| BODY)` + ` {` / end of line, or the receiver of an outer rewritten call), RECV is a
+    scrutinee (`let PAT = RECV.f(|p| BODY)` + ` {` / `;` / end of line, or the receiver of an outer rewritten call), RECV is a
     postfix chain of paths / method calls, BODY is a single expression without `return`, `?`, `|`, braces or `;`.
     Line structure is unchanged."""
     text = '\n'.join(lines)
@@ -746,7 +746,7 @@ def r10_option_closure(lines, origin, repo, relfile):
             raise RewriteError("R10: closure body `%s` is not a plain expression (%s)" % (body.strip(), relfile))
         # what follows the call must end the scrutinee
         rest = text[k + 1:]
-        if not re.match(r'[ \t]*(\{[ \t]*)?(\n|$)|[ \t]*\n[ \t]*\{|\)[ \t]*\{', rest) and not rest.lstrip(' \t').startswith(') {'):
+        if not re.match(r'[ \t]*(\{[ \t]*)?(\n|$)|[ \t]*\n[ \t]*\{|\)[ \t]*\{|;[ \t]*(\n|$)', rest) and not rest.lstrip(' \t').startswith(') {'):
             raise RewriteError("R10: `.%s(|%s| ..)` is not the tail of a scrutinee at %s: `%s`" % (kind, var, relfile, rest[:30]))
         # receiver: postfix chain scanned backwards from the dot
         q = mm.start()
